@@ -201,6 +201,11 @@ def analyse_load_rows_c12(res: RuleResult, summ) -> None:
         if r["kind"] == "raise":
             continue  # C13
         main_ok = main_attempts and main_attempts[0]["ok"] is True
+        first_bak = bak_attempts[0]["i"] if bak_attempts else 10**9
+        main_applied = any(ui < first_bak for ui, _a in r["updates"])
+        if main_applied and bak_attempts:
+            res.add("C12-R4", f"safe_load_sensors[{ext}] / the backup is not touched when the main file loaded", False, "mysensors/persistence.py", "the main file was decoded and applied, yet the (possibly stale) backup is loaded on top: mixed state", r["witness"])
+            continue
         if main_ok:
             ok = not bak_attempts
             res.add("C12-R4", f"safe_load_sensors[{ext}] / the backup is not touched when the main file loaded", ok, "mysensors/persistence.py", "", r["witness"] if not ok else None)
